@@ -72,6 +72,47 @@ ASSUMPTIONS = [
     "decoder input, Trompt's per-layer prompts, ExcelFormer's decoder input) at position granularity",
 ]
 
+# ERROR_PATHS -- every raise / assert / special-case branch / dtype cast / buffer / hand-written numerically "safe"
+# formula in the anchored code, the generator kind that reaches it, and the oracle key that notices a change.
+#
+#  all models: `if stype_encoder_dict is None: {categorical: EmbeddingEncoder(), numerical: LinearEncoder()}` (Trompt /
+#     TabNet / ExcelFormer: their own defaults with NA strategies) ........... num_enc = None cases next to explicit
+#                                                                             dictionaries (sanity: both drawn)
+#  ft_transformer / tab_transformer / trompt / tabnet / excelformer: `if num_layers <= 0: raise ValueError`
+#                                                                          ... extra(): constructor probes, key
+#                                                                             accepts-invalid-config:<model>
+#  excelformer.py `col_names_dict.keys() != {numerical}: raise`, `assert mixup in [...]`  extra(): constructor probes
+#  excelformer.py feature_mixup (asserts, Beta sampling, randperm) ........... training-time path (mixup_encoded=True),
+#                                                                             outside C14 (property C19)
+#  mlp.py / resnet.py `normalization` three-way branch, `in_channels != out_channels` shortcut branch
+#                                                                          ... norm in {layer_norm, batch_norm, None} drawn,
+#                                                                             1..3 layers; probes backbone_in/decoder_in
+#  mlp.py `torch.mean(x, dim=1)` ............................................. probe mlp_in; keys column-unused, row-leak
+#  resnet.py / tabnet.py / tab_transformer.py `view(B, prod(shape[1:]))` / reshape  probes backbone_in / bn_in / decoder_in
+#  tab_transformer.py `if stype.categorical in ...` / `if stype.numerical in ...` branches  stypes both / cat / num
+#  tab_transformer.py pad_embedding `.repeat(batch_size, 1, 1)`, `torch.cat((x_cat, pos), -1)`  probe conv0_in (pad
+#                                                                             channels), batch sizes 0 / 1 / 2
+#  tab_transformer.py decoder BatchNorm1d x 2 (eval) ......................... row-leak, batch-dependent, histories
+#  trompt.py `x_prompt.repeat(batch_size, 1, 1)`, `out.view(batch_size, 1, out)`, torch.cat(outs, 1)  shape key, probe
+#                                                                             prompts, batch 0 (empty-shape)
+#  tabnet.py `cat_emb_channels if categorical in col_names_dict else 1` ...... frames with and without categorical columns
+#  tabnet.py GhostBatchNorm1d: `if len(x) > 0` branch, math.ceil, torch.chunk, torch.cat  batches 0, 1, 2, 511..513,
+#                                                                             1023..1025, 1300, 1537, 1700, 2049: keys
+#                                                                             row-leak, non-deterministic, batch-dependent
+#  tabnet.py `Identity()` branches for 0 shared / 0 dependent GLU layers, no_first_residual  (shared, dep) in
+#                                                                             {(2,2),(0,1),(2,0),(1,3)}
+#  tabnet.py `x * math.sqrt(0.5)`, `(gamma - mask) * prior`, F.softmax(dim=-1)  gamma drawn; keys row-leak / batch-dependent
+#  tabnet.py `torch.log(attention_mask + 1e-15)`, `batch_size > 0` guard ..... return_reg=True only (training), outside C14
+#  stypewise_encoder.py `raise ValueError` (invalid stype / unsupported encoder) ... C12's property
+#  stype encoders: nan_to_num for na_strategy None, fill values, `+ 1e-6` / `+ 1e-8` eps terms, bucketize, `.float()`
+#     mask of LinearBucketEncoder ............................................ every encoder class x NA strategy x
+#                                                                             numerical column kinds (ties at min / middle
+#                                                                             / top, constant, two-valued, single value):
+#                                                                             keys non-finite, row-leak, column-unused;
+#                                                                             float32 and float64
+#  values far out of range but finite ........................................ near-constant columns encode to ~1e6 next
+#                                                                             to ordinary columns; key non-finite
+#
 NORM_CODE = {None: 0, "layer_norm": 1, "batch_norm": 2}
 TRIALS = 8
 SIZES = [1.0, 10.0, 100.0]
@@ -714,10 +755,44 @@ def selftest_discrimination(rng):
     return fails, {"selftest_pairs": len(terms), "selftest_wrong": len(bad)}
 
 
+def constructor_probes(rng):
+    """Configurations the constructors must reject (the `raise ValueError` / `assert` of the models' __init__)."""
+    fails, n = [], 0
+    with P.f64(1):
+        data = P.gen_data(rng, 3, 2, 2, "regression", 0.0)
+        ds = P.make_dataset(data)
+        dsn = P.make_dataset(dict(data, cat=[]))
+        for m in ("FTTransformer", "TabTransformer", "Trompt", "TabNet", "ExcelFormer"):
+            for L in (0, -1):
+                n += 1
+                try:
+                    opts = {"layers": L, "channels": 8}
+                    if m == "TabNet":
+                        from torch_frame import nn as tnn
+                        tnn.TabNet(out_channels=1, num_layers=L, split_feat_channels=8, split_attn_channels=8, gamma=1.2,
+                                   col_stats=ds.col_stats, col_names_dict=ds.tensor_frame.col_names_dict)
+                    else:
+                        P.build_model(m, opts, dsn if m == "ExcelFormer" else ds, 1)
+                    fails.append(dict(key=f"accepts-invalid-config:{m}", case=None,
+                                      what=f"{m} was constructed with num_layers = {L}"))
+                except Exception:
+                    pass
+        n += 1
+        try:
+            P.build_model("ExcelFormer", {"channels": 8}, ds, 1)
+            fails.append(dict(key="accepts-invalid-config:ExcelFormer", case=None,
+                              what="ExcelFormer was constructed on a frame with categorical columns"))
+        except Exception:
+            pass
+    return fails, n
+
+
 def extra(tier, rng):
+    f0, n0 = constructor_probes(rng)
     f1, n = validate_torch_blocks(rng)
+    f1 = f0 + f1
     f2, info = selftest_discrimination(rng)
-    info = dict(info, torch_block_rowwise_checks=n)
+    info = dict(info, torch_block_rowwise_checks=n, constructor_probes=n0)
     return f1 + f2, info
 
 
